@@ -96,11 +96,39 @@ def c05_2(ctx: Ctx) -> RuleResult:
             src = ast.unparse(m.node)
             if ".first" in src and ".last" in src and any(isinstance(x, ast.Raise) for x in ast.walk(m.node)) and m.name not in ("__init__",):
                 chk = m
+        chk_args, chk_repo, chk_init = None, ctx.repo, None
+        if chk is None:
+            # the validator as a module-level function next to the class (`_check_range(options, n)`), its arguments given
+            # by the constructor: the options model and the ensemble size
+            # (read from the program as written: the procedure normal form merges such a validator into its callers)
+            from .. import model as _model
+
+            prev_ = _model.INLINE_PROCEDURES
+            _model.INLINE_PROCEDURES = False
+            try:
+                repo2 = _model.Repo(ctx.repo.root)
+            finally:
+                _model.INLINE_PROCEDURES = prev_
+            ctx2 = Ctx(repo2)
+            c2 = repo2.classes.get(c.qualname)
+            init0 = c2.methods.get("__init__") if c2 is not None else None
+            for g in (repo2.funcs_in(c.module.name) if c2 is not None else []):
+                if g.cls is None and g.outer is None and not isinstance(g.node, ast.Lambda):
+                    src = ast.unparse(g.node)
+                    if ".first" in src and ".last" in src and any(isinstance(x, ast.Raise) for x in ast.walk(g.node)):
+                        calls0 = [x for x in ast.walk(init0.node) if isinstance(x, ast.Call) and isinstance(x.func, ast.Name) and x.func.id == g.name] if init0 is not None else []
+                        if calls0:
+                            roles = []
+                            for a_ in calls0[0].args:
+                                t_ = ctx2.X.at(init0, a_)
+                                roles.append("n" if any(s_[0] == "attr" and s_[2] in ("size", "shape") for s_ in subterms(t_)) or (t_[0] == "call" and t_[1] == ("builtin", "len")) else "opt")
+                            if len(roles) == len(g.positional) and roles.count("n") == 1 and roles.count("opt") == 1 and not calls0[0].keywords:
+                                chk, chk_args, chk_repo, chk_init = g, roles, repo2, init0
         if chk is None:
             res.add(None, c.node, "a window validator exists", False, "no function validating first/last found", construct=f"{c.name}: validator",
                     where=f"{c.module.relpath}:{c.node.lineno}", fname=c.qualname)
             continue
-        interp = Interp(ctx.repo, _RangeHooks())
+        interp = Interp(chk_repo, _RangeHooks())
         wrong = []
         total = 0
         for n_, first, last in itertools.product(range(1, 5), range(0, 6), range(0, 6)):
@@ -113,7 +141,10 @@ def c05_2(ctx: Ctx) -> RuleResult:
                 "opt": {"first": first, "last": last},
             }
             st = State(heap, {})
-            outs = interp.call_func(chk, [Obj("self", ""), Obj("opt", "")], {}, st, 0)
+            if chk_args is None:
+                outs = interp.call_func(chk, [Obj("self", ""), Obj("opt", "")], {}, st, 0)
+            else:
+                outs = interp.call_func(chk, [n_ if r_ == "n" else Obj("opt", "") for r_ in chk_args], {}, st, 0)
             accepted = len(outs) > 0
             expected = 0 <= first <= last < n_
             if accepted != expected:
@@ -123,13 +154,15 @@ def c05_2(ctx: Ctx) -> RuleResult:
         res.add(chk, chk.node, f"accepts iff 0 <= first <= last < n ({total} combinations covering every order type of first, last, n)", ok,
                 "" if ok else f"(n, first, last, accepted) = {wrong[:4]}: windows outside the ensemble are accepted or valid ones rejected", construct=f"{c.name}.{chk.name}: order table")
         # called for every options model with first/last
-        init = c.methods.get("__init__")
+        init = chk_init if chk_init is not None else c.methods.get("__init__")
         models = {k.name for k in ctx.repo.classes.values() if k.module is c.module and {"first", "last"} <= set(k.fields)}
+        ctx_pc = Ctx(chk_repo) if chk_init is not None else ctx
         if init is not None:
             from ..util import bool_nnf, path_condition
 
             covered: dict[str, ast.AST] = {}
-            chk_calls = [x for x in ast.walk(init.node) if isinstance(x, ast.Call) and isinstance(x.func, ast.Attribute) and x.func.attr == chk.name]
+            chk_calls = [x for x in ast.walk(init.node) if isinstance(x, ast.Call) and (isinstance(x.func, ast.Attribute) and x.func.attr == chk.name
+                                                                                        or chk_args is not None and isinstance(x.func, ast.Name) and x.func.id == chk.name)]
             for call_ in chk_calls:
                 names = set()
                 cur = parent(call_)
@@ -151,7 +184,7 @@ def c05_2(ctx: Ctx) -> RuleResult:
                 st_ = call_
                 while parent(st_) is not None and not isinstance(st_, ast.stmt):
                     st_ = parent(st_)
-                pc = path_condition(ctx, init, st_)
+                pc = path_condition(ctx_pc, init, st_)
                 if pc:
                     g_ = bool_nnf(("bool", "and", tuple(c_ if p_ else ("unary", "not", c_) for c_, p_ in pc)))
                     for it in (g_[1] if g_[0] == "and" else [g_]):
